@@ -7,12 +7,13 @@ EXTENDS Integers, Sequences, FiniteSets
 Sd(cc, code, kind) ==
     [cc |-> cc, code |-> code, kind |-> kind, good |-> "GOOD", lab |-> "LAB", taxto |-> "GOV",
      issuer |-> "GOV", margin |-> FALSE, tre |-> 0, trector |-> FALSE, mkts |-> << >>,
-     aw |-> << >>, gift |-> FALSE, extra |-> << >>, late |-> << >>]
+     aw |-> << >>, gift |-> FALSE, extra |-> << >>, late |-> << >>, params |-> << >>]
 
 Bp(name, countries, sectors, free) ==
     [name |-> name, countries |-> countries, external |-> "none", sectors |-> sectors, free |-> free,
      freeq |-> free,     \* the (smaller) set used by the quick instance
-     flows |-> << >>, suppliers |-> << >>, exo |-> << >>, wellformed |-> TRUE, gold |-> FALSE]
+     flows |-> << >>, suppliers |-> << >>, exo |-> << >>, wellformed |-> TRUE, gold |-> FALSE,
+     book |-> ""]   \* "module:Class" when the model is put together by a bundled gl_book builder, not by the driver
 
 C1 == << [code |-> "C", cur |-> "C"] >>
 Exo(s, v) == [s |-> s, var |-> v]
@@ -23,6 +24,9 @@ SIM == [Bp("SIM", C1,
               Sd("C", "BUS", "FixedMarginBusiness"), Sd("C", "TF", "TaxFlow"),
               Sd("C", "LAB", "Market"), Sd("C", "GOOD", "Market") >>, 1..6)
         EXCEPT !.freeq = {3, 4, 5, 6}, !.exo = << Exo(1, "DEM_GOOD") >>]
+
+\* the government is the user's own bare Sector (as in the package's external-sector example), taxes are paid to it
+SIMPLAIN == [SIM EXCEPT !.name = "SIMPLAIN", !.freeq = {1, 4}, !.sectors[1].kind = "PlainGovernment"]
 
 SIMEX == [SIM EXCEPT !.freeq = {2, 3, 5}, !.name = "SIMEX", !.sectors[2].kind = "HouseholdWithExpectations"]
 
@@ -193,6 +197,36 @@ REG2 == [Bp("REG2", C3,
                !.suppliers = << [mkt |-> 7, sup |-> 12, rule |-> TRUE], [mkt |-> 7, sup |-> 8, rule |-> FALSE],
                                 [mkt |-> 11, sup |-> 8, rule |-> TRUE], [mkt |-> 11, sup |-> 12, rule |-> FALSE] >>]
 
+\* ---- the same model as the bundled builder sfc_models.gl_book.chapter6.REG2 declares it (country codes GOV, N, S) ----
+ReCC(sd) == [sd EXCEPT !.cc = IF sd.cc = "G" THEN "GOV" ELSE sd.cc,
+                       !.params = IF sd.kind = "Household" THEN << "L0", "L1", "L2" >>
+                                  ELSE IF sd.code = "GOOD" THEN << "MU" >> ELSE << >>]
+REG2BOOK == [REG2 EXCEPT !.name = "REG2BOOK", !.book = "chapter6:REG2", !.free = {}, !.freeq = {},
+                         !.countries = << [code |-> "GOV", cur |-> "X"], [code |-> "N", cur |-> "X"], [code |-> "S", cur |-> "X"] >>,
+                         !.sectors = [i \in 1..Len(REG2.sectors) |-> ReCC(REG2.sectors[i])]]
+
+\* ---- the chapter 3 / 4 models as the bundled builders declare them ------------------------------------------------------
+SIMBOOK == [SIM EXCEPT !.name = "SIMBOOK", !.book = "chapter3:SIM", !.free = {}, !.freeq = {}]
+SIMEX1BOOK == [SIMEX EXCEPT !.name = "SIMEX1BOOK", !.book = "chapter3:SIMEX1", !.free = {}, !.freeq = {}]
+PCBOOK == [PC EXCEPT !.name = "PCBOOK", !.book = "chapter4:PC", !.free = {}, !.freeq = {},
+                     !.sectors[1].params = << "FISCBAL" >>, !.sectors[3].params = << "L0", "L1", "L2" >>]
+
+\* ---- model REG as the bundled builder sfc_models.gl_book.chapter6.REG declares it: one country, two of everything --------
+REGBOOK == [Bp("REGBOOK", C1,
+           << [Sd("C", "TRE", "Treasury") EXCEPT !.extra = << "DEM_GOOD_N", "DEM_GOOD_S" >>, !.params = << "FISCBAL" >>],
+              [Sd("C", "CB", "CentralBank") EXCEPT !.tre = 1, !.trector = TRUE],
+              [Sd("C", "HH_N", "Household") EXCEPT !.good = "GOOD_N", !.lab = "LAB_N", !.aw = << "DEP" >>, !.params = << "L0", "L1", "L2" >>],
+              [Sd("C", "HH_S", "Household") EXCEPT !.good = "GOOD_S", !.lab = "LAB_S", !.aw = << "DEP" >>, !.params = << "L0", "L1", "L2" >>],
+              [Sd("C", "GOOD_N", "Market") EXCEPT !.params = << "MU" >>], [Sd("C", "GOOD_S", "Market") EXCEPT !.params = << "MU" >>],
+              [Sd("C", "BUS_N", "FixedMarginBusinessMultiOutput") EXCEPT !.mkts = << 5, 6 >>, !.lab = "LAB_N"],
+              [Sd("C", "BUS_S", "FixedMarginBusinessMultiOutput") EXCEPT !.mkts = << 5, 6 >>, !.lab = "LAB_S"],
+              [Sd("C", "TF", "TaxFlow") EXCEPT !.taxto = "TRE"], Sd("C", "LAB_S", "Market"), Sd("C", "LAB_N", "Market"),
+              [Sd("C", "MON", "MoneyMarket") EXCEPT !.issuer = "CB"], [Sd("C", "DEP", "DepositMarket") EXCEPT !.issuer = "TRE"] >>,
+           {})
+        EXCEPT !.book = "chapter6:REG", !.exo = << Exo(1, "DEM_GOOD_N"), Exo(1, "DEM_GOOD_S"), Exo(13, "r") >>,
+               !.suppliers = << [mkt |-> 5, sup |-> 8, rule |-> TRUE], [mkt |-> 5, sup |-> 7, rule |-> FALSE],
+                                [mkt |-> 6, sup |-> 8, rule |-> FALSE], [mkt |-> 6, sup |-> 7, rule |-> TRUE] >>]
+
 \* ---- treasury + gold-standard central bank in A (money, deposits), a simple economy in B, gifts both ways -----------
 GOLDCB == [Bp("GOLDCB", C2,
            << Sd("A", "TRE", "Treasury"), [Sd("A", "CB", "GoldStandardCentralBank") EXCEPT !.tre = 1, !.trector = TRUE],
@@ -214,6 +248,10 @@ RING3 == [Bp("RING3", C3cur, Econ("A") \o Econ("B") \o Econ("K"), {9})
           EXCEPT !.freeq = {9}, !.external = "last",
                  !.flows = << Flow(2, 8, "GIFT", FALSE, TRUE), Flow(8, 14, "GIFT", FALSE, TRUE), Flow(14, 2, "GIFT", TRUE, TRUE) >>,
                  !.exo = << Exo(1, "DEM_GOOD"), Exo(7, "DEM_GOOD"), Exo(13, "DEM_GOOD") >>]
+
+\* the same, but one donor sends the same amount variable to two other currencies
+RINGFAN == [RING3 EXCEPT !.name = "RINGFAN",
+                         !.flows = << Flow(2, 8, "GIFT", FALSE, TRUE), Flow(2, 14, "GIFT", FALSE, TRUE), Flow(14, 2, "GIFT", TRUE, TRUE) >>]
 
 \* ---- two goods markets whose codes are prefix-related (GOOD, GOODX), one firm and one government in both ---------
 MULTIX == [Bp("MULTIX", C1,
@@ -241,6 +279,6 @@ TRIREG == [Bp("TRIREG", C3reg,
 \* ---- as TWOBUS, the second business being an instance of a user-defined subclass of FixedMarginBusiness -----------
 TWOBUSX == [TWOBUS EXCEPT !.name = "TWOBUSX", !.sectors[5].kind = "FixedMarginBusinessSub"]
 
-AllBlueprints == {MULTIX, TRIREG, TWOBUSX, RING3, REG2, GOLDCB, TWOBUS, TWOGIFTS, SIMBOND, IMPORTRES, NOEXT3, SIMX, SIMR, SIMEXR, JOIN2, JOIN2X, GOLD2, GOLDNOEXT, SIM, SIMEX, SIMCAP, SIMMARGIN, SIMMON, SIMDEP, PC, MULTI, FED, GIFT, GIFT2, IMPORT, NOEXT1, NOEXT2, NOSUP, TWOSUP}
+AllBlueprints == {RINGFAN, SIMPLAIN, SIMBOOK, SIMEX1BOOK, PCBOOK, REGBOOK, REG2BOOK, MULTIX, TRIREG, TWOBUSX, RING3, REG2, GOLDCB, TWOBUS, TWOGIFTS, SIMBOND, IMPORTRES, NOEXT3, SIMX, SIMR, SIMEXR, JOIN2, JOIN2X, GOLD2, GOLDNOEXT, SIM, SIMEX, SIMCAP, SIMMARGIN, SIMMON, SIMDEP, PC, MULTI, FED, GIFT, GIFT2, IMPORT, NOEXT1, NOEXT2, NOSUP, TWOSUP}
 QuickBlueprints == { [b EXCEPT !.free = b.freeq] : b \in AllBlueprints }
 =============================================================================
